@@ -3,6 +3,7 @@ package main
 import (
 	"fmt"
 	"strconv"
+	"sync"
 	"time"
 
 	"verifharness/internal/h1x"
@@ -18,7 +19,7 @@ import (
 const agedTimeout = 2 * time.Second
 
 func runAgedBatch(r *vh.Run, batch string) {
-	n := r.Pick(3, 12)
+	n := r.Pick(4, 12)
 	for i := 0; i < n; i++ {
 		c := connCase{Kind: "aged", Stream: "c01-" + batch, Idx: i}
 		r.Case(c)
@@ -26,7 +27,142 @@ func runAgedBatch(r *vh.Run, batch string) {
 	}
 }
 
+// runSlowPipeline: Proxy.SetTimeout(T); four small requests are written in one
+// piece (so the later ones sit in the proxy's read buffer) and the origin takes
+// 0.45 T for each: no single exchange comes near the timeout, the batch as a
+// whole takes 1.8 T. martian's deadline is per request (armed when the handler
+// loop turns to the next request), so every response must arrive.
+func runSlowPipeline(r *vh.Run, c connCase) {
+	rng := r.Rng(c.Stream, c.Idx)
+	T := agedTimeout
+	delay := T * 45 / 100
+	auth := "o2.test"
+	p := &plan{Pipelined: true}
+	for i := 0; i < 4; i++ {
+		q := &reqSpec{I: i, Authority: auth, Proto: "HTTP/1.1", Method: []string{"GET", "POST", "DELETE"}[rng.Intn(3)], Path: "/r" + strconv.Itoa(i) + "/slow", Framing: "none"}
+		q.Abs = rng.Intn(2) == 0
+		q.Headers, q.Raw = genHeaders(rng, reqHdrNames, 2)
+		q.HostPos = len(q.Headers)
+		q.HostLine = "Host: " + auth
+		if q.Method == "POST" {
+			q.Body = vh.Stamp(stampID(c.Idx, i, 0), rng.Intn(200))
+			q.Framing = "cl"
+		}
+		s := &resSpec{Proto: "HTTP/1.1", Status: 200, Reason: "OK", HeadCL: -1, Framing: []string{"cl", "chunked"}[rng.Intn(2)], Body: vh.Stamp(stampID(c.Idx, i, 1), 1+rng.Intn(2000))}
+		if s.Framing == "chunked" {
+			s.Chunks = chunking(rng, len(s.Body))
+		}
+		if i == 3 {
+			q.Close = true
+		}
+		p.Reqs, p.Ress = append(p.Reqs, q), append(p.Ress, s)
+		p.ReqBytes = append(p.ReqBytes, renderRequest(q, rng))
+	}
+	p.Last = 3
+	env, err := h1x.Start(h1x.Opts{})
+	if err != nil {
+		r.Inconclusive("harness: cannot start proxy/origin", err.Error())
+		return
+	}
+	env.Proxy.SetTimeout(T)
+	env.RouteOrigin(auth + ":80")
+	var hmu sync.Mutex
+	var wrote [4]time.Time // lower bound of the instant the origin wrote response i
+	env.Origin.Handle = func(conn, idx int, m *h1x.Msg) h1x.Action {
+		id := targetID(m.Target)
+		if id < 0 || id >= len(p.Ress) {
+			return h1x.Action{Close: true}
+		}
+		hmu.Lock()
+		if wrote[id].IsZero() {
+			wrote[id] = time.Now().Add(delay)
+		}
+		hmu.Unlock()
+		return h1x.Action{Write: renderResponse(p.Ress[id]), Delay: delay}
+	}
+	dialled := time.Now()
+	cl, err := env.L.Dial(nil)
+	if err != nil {
+		env.Close()
+		r.Inconclusive("harness: cannot dial proxy", err.Error())
+		return
+	}
+	act := env.Origin.Activity
+	var all []byte
+	for _, b := range p.ReqBytes {
+		all = append(all, b...)
+	}
+	var vs []viol
+	cl.Send(all, nil)
+	out, fp := h1x.AwaitCond(func() bool {
+		q, _ := cl.Quiet()
+		if !q {
+			return false
+		}
+		v := cl.View()
+		return v.Closed || responsesComplete(v, p, 4)
+	}, func() string { return cl.Activity() + " " + act() })
+	decided := handleStep(r, c, cl, out, fp, &vs, "slow-pipeline")
+	r.Eval(1)
+	// Validity of the schedule (suppresses, never creates, a verdict): the
+	// deadline martian armed for request i is not earlier than (the instant the
+	// origin wrote response i-1) + T, for request 0 (the instant the client
+	// dialled) + T. A response, or the end of the connection, observed less than
+	// 0.9 T after that instant cannot be the work of the configured timeout.
+	v := cl.View()
+	valid := true
+	off := 0
+	hmu.Lock()
+	for i := 0; i < 4 && valid; i++ {
+		base := dialled
+		if i > 0 {
+			base = wrote[i-1]
+		}
+		m := h1x.ParseResponse(v.Data[off:], p.Reqs[i].Method, v.Closed)
+		var seen time.Time
+		if m.Outcome == h1x.StComplete {
+			off += m.Len
+			seen = cl.ArrivalOf(off)
+		} else {
+			seen = time.Now() // the stream ended / stalled here: judged only if that was early
+			if base.IsZero() || seen.Sub(base) >= T*9/10 {
+				valid = false
+			}
+			break
+		}
+		if base.IsZero() || seen.IsZero() || seen.Sub(base) >= T*9/10 {
+			valid = false
+		}
+	}
+	hmu.Unlock()
+	if !valid {
+		r.Count("aged_cases_voided_schedule_not_kept", 1)
+	} else if decided {
+		vs = append(vs, evaluate(r, c, p, v, env.Origin.Requests(), 4)...)
+		if len(vs) == 0 {
+			r.Count("slow_pipelines_verified", 1)
+		}
+	}
+	cl.Close()
+	if !env.Close() {
+		r.Count("teardown_slow", 1)
+	}
+	seen := map[string]bool{}
+	for _, x := range vs {
+		sig := "C01:" + x.clause + ":" + x.class
+		if seen[sig] {
+			continue
+		}
+		seen[sig] = true
+		r.ViolationCase(c, sig, x.what+fmt.Sprintf(" [proxy timeout %v; 4 pipelined requests, the origin takes %v for each]", T, delay), describe(p))
+	}
+}
+
 func runAgedCase(r *vh.Run, c connCase) {
+	if c.Idx%2 == 1 {
+		runSlowPipeline(r, c)
+		return
+	}
 	rng := r.Rng(c.Stream, c.Idx)
 	T := agedTimeout
 	auth := "o1.test"
